@@ -458,8 +458,9 @@ class Model:
         targets = [ent]
         if self.s.classes[cl].assoc:
             for ln, v in updates.items():
-                d = exposed[ln]
-                if d.type != 'reference' or v[0] != 'reference' or \
+                d = exposed.get(ln)
+                if d is None or d.type != 'reference' or \
+                        v[0] != 'reference' or \
                         (ln in given and id(given[ln]) in bad):
                     continue
                 if not is_refview(v[2]):
@@ -1141,6 +1142,16 @@ def gen_create(h, rng):
         cname = repogen.vcase(rng, 'CIM_Namespace')
         if rng.random() < 0.9:
             nsarg = ns_variant(rng, s.interop)
+    assocs = [c for c in s.classes.values() if c.assoc]
+    if assocs and rng.random() < 0.3:
+        # an association between known instances; while there are none,
+        # an instance of one of its end classes
+        c = rng.choice(assocs)
+        krefs = s.keys(c.name)
+        if all(endpoints(h, k.ref_class) for k in krefs):
+            cname = repogen.vcase(rng, c.name)
+        else:
+            cname = repogen.vcase(rng, rng.choice(krefs).ref_class)
     cdef = s.cls(cname)
     props = []
     note = []
